@@ -175,6 +175,33 @@ def load_answer(fn, s):
         return ["other", type(e).__name__]
 
 
+def mode_answer(mode, s):
+    """what loaders[mode] answers for a text; an exception is classified by the implementation's own list of the mode's
+    loader exceptions (those every caller catches and falls back from), any other error is "valerr"/"other" """
+    try:
+        with contextlib.redirect_stderr(io.StringIO()):
+            return ["val", tag(ld.loaders[mode](s))]
+    except ld.get_loader_exceptions(mode):
+        return ["yamlerr"]
+    except ValueError:
+        return ["valerr"]
+    except RecursionError:
+        return ["other", "RecursionError"]
+    except Exception as e:
+        return ["other", type(e).__name__]
+
+
+def oracles(strs, modes):
+    oracle, oracle_oc, seen = [], [], set()
+    for s in strs:
+        if s not in seen:
+            seen.add(s)
+            oracle.append([s, load_answer(ld.yaml_load, s)])
+            if "omegaconf" in modes and "omegaconf" in ld.loaders:
+                oracle_oc.append([s, mode_answer("omegaconf", s)])
+    return oracle, oracle_oc
+
+
 def strings_of(v, acc):
     if isinstance(v, str):
         acc.append(v)
@@ -283,14 +310,10 @@ def run_case(case, tmp):
         chan["yaml/cfgfile@after:" + name] = outcome(lambda: make_parser(case, T, "yaml").parse_args(["--cfg", files[name]]), dest)
     strs = [text] + [t for _, t in (case.get("items") or [])]
     strings_of(val, strs)
-    oracle, seen = [], set()
-    for s in strs:
-        if s not in seen:
-            seen.add(s)
-            oracle.append([s, load_answer(ld.yaml_load, s)])
+    oracle, oracle_oc = oracles(strs, case["modes"])
     from jsonargparse._namespace import clash_names
 
-    return {"chan": chan, "loaded": loaded, "oracle": oracle, "envvar": envvar, "clash": any(k in clash_names for k in key)}
+    return {"chan": chan, "loaded": loaded, "oracle": oracle, "oracle_oc": oracle_oc, "envvar": envvar, "clash": any(k in clash_names for k in key)}
 
 
 # ---------------------------------------------------------------------------------------------------------------------
@@ -479,12 +502,9 @@ def run_sub(case, tmp):
             loaded[mode + "/json_nested"] = ans
         strs = [l["text"]]
         strings_of(untag(l["val"]), strs)
-        oracle, seen = [], set()
-        for x in strs:
-            if x not in seen:
-                seen.add(x)
-                oracle.append([x, load_answer(ld.yaml_load, x)])
+        oracle, oracle_oc = oracles(strs, case["modes"])
         out.append({"key": l["key"], "chan": {n: c[l["key"]] for n, c in chans.items()}, "loaded": loaded, "oracle": oracle,
+                    "oracle_oc": oracle_oc,
                     "clash": False})
     return {"leaves": out, "envmap": envmap}
 
